@@ -2,7 +2,7 @@ SPECIFICATION Spec
 CONSTANTS
   Level = 1
   RunDurs = {0, 1, 4}
-  MaxOps = 4
+  MaxOps = 3
   MaxNow = 9
   EmitHist = FALSE
 VIEW view
